@@ -302,6 +302,15 @@ def _check_own(ctx):
     from .roles import M_KEY, M_VAL
     n_ops = cursor.check_cursor(ctx, prog, R, {M_KEY, M_VAL})
     ctx.floor("field-position", "record field accesses checked", n_ops, 30)
+    # ---- (4b') a link reader returns the link it read: no other value (a constant "end of chain", a parameter) on any
+    # success path - "this record looks released, stop here" makes live records unreachable
+    for role, prim in (("NEXT_AT", "R_PIECE_OFFSET"), ("KEY_VALOFF", "R_PIECE_OFFSET")):
+        f = R.get(role)
+        if f is None:
+            continue
+        bad = _non_field_returns(prog, R, f, R.need(prim), 0)
+        ctx.check(not bad, "field-position", role + ":returns-the-stored-field",
+                  "%s can return something other than the field it read from the record (%s)" % (f.name, bad[:2]), where=where(f))
     # ---- (4c) payload integrity -----------------------------------------------------------------
     from . import payload
     payload.check_stored_length_reads(ctx, prog, R)
@@ -313,6 +322,37 @@ def _check_own(ctx):
     ctx.check(kf_fn.inputs[1] != vf_fn.inputs[1], "offset-types-distinct", "Key|Value", "key and value piece offsets are the same type")
     ctx.floor("origin-obligations", "origin obligations evaluated", n_origin, 11)
     ctx.sample({"put": put.id, "insert_arm_entry": put_none, "overwrite_arm_entry": put_some, "delete_found_entry": del_some})
+
+
+def _non_field_returns(prog, R, f, prim, depth):
+    """Origins of f's Ok payload that are not (transitively, through wrappers of the lib) results of the field primitive."""
+    from .util import tracer
+    bad = []
+    tr = tracer(prog, f)
+    os_ = []
+    for o in tr.place({"l": 0, "p": []}):
+        if o.kind == "call" and (o.data.get("callee") or "").endswith("FromResidual::from_residual"):
+            continue        # an error exit of `?`
+        if o.kind == "agg" and o.data.get("variant") == "Ok" and len(o.data.get("ops", [])) == 1 and not o.proj:
+            os_ += tr.operand(o.data["ops"][0], at=o.block)
+        else:
+            os_.append(o)
+    if not os_:
+        return ["no origin"]
+    for o in os_:
+        if o.kind == "call":
+            tg = prog.targets(o.data, f)[0]
+            if any(x.id == prim.id for x in tg):
+                continue
+            if tg and all(x.crate == "abyssiniandb" and x.blocks for x in tg) and depth < 3 and all(x.id != f.id for x in tg) \
+                    and not any((x.name == "new" and "semtype" in x.id) for x in tg):
+                sub = [y for x in tg for y in _non_field_returns(prog, R, x, prim, depth + 1)]
+                if not sub:
+                    continue
+                bad += sub
+                continue
+        bad.append(str(o))
+    return bad
 
 
 def _unlink_via_helper(prog, R, dele, lookup, r_del, from_found):
